@@ -842,6 +842,7 @@ GRIget_image_list(int32 file_id, gr_info_t *gr_ptr)
 
                         /* Initialize all the fields in the image structure to zeros */
                         memset(new_image, 0, sizeof(ri_info_t));
+                        new_image->fill_img = TRUE; /* an image that has no data yet gets fill pixels on its first partial write */
 
                         /* Get the name of the image */
                         if (Vgetnamelen(img_key, &name_len) == FAIL)
@@ -1059,6 +1060,7 @@ GRIget_image_list(int32 file_id, gr_info_t *gr_ptr)
 
                     /* Initialize all the fields in the image structure to zeros */
                     memset(new_image, 0, sizeof(ri_info_t));
+                    new_image->fill_img = TRUE; /* an image that has no data yet gets fill pixels on its first partial write */
 
                     /* Get the name of the image */
                     sprintf(textbuf, "Raster Image #%d", (int)i);
@@ -1205,6 +1207,7 @@ GRIget_image_list(int32 file_id, gr_info_t *gr_ptr)
 
                     /* Initialize all the fields in the image structure to zeros */
                     memset(new_image, 0, sizeof(ri_info_t));
+                    new_image->fill_img = TRUE; /* an image that has no data yet gets fill pixels on its first partial write */
 
                     /* Get the name of the image */
                     sprintf(textbuf, "Raster Image #%d", (int)i);
